@@ -32,6 +32,7 @@ import (
 const rtPath = "github.com/orda-io/orda/client/pkg/verifrt"
 
 type report struct {
+	GoSites       []string `json:"go_sites"`
 	MapRangeSites []string `json:"map_range_sites"`
 	Skipped       []string `json:"skipped"`
 	VsyncFiles    []string `json:"vsync_files"`
@@ -106,7 +107,11 @@ func main() {
 				astutil.AddImport(fset, f, rtPath)
 				changed = true
 			}
-			if strings.HasSuffix(fn, "client/pkg/internal/datatypes/transaction.go") {
+			if goGated(fn) && rewriteGoStmts(fset, f, fn, *repo, rep) {
+				astutil.AddImport(fset, f, rtPath)
+				changed = true
+			}
+			if strings.HasSuffix(fn, "client/pkg/internal/datatypes/transaction.go") || strings.HasSuffix(fn, "server/utils/local_lock.go") {
 				if astutil.RewriteImport(fset, f, "sync", rtPath+"/vsync") {
 					// keep the package name `sync` for selectors
 					for _, im := range f.Imports {
@@ -288,4 +293,67 @@ func quietLog(f *ast.File) bool {
 		}
 	}
 	return false
+}
+
+// goGated: packages whose `go` statements get a gate at the start of the new goroutine, so that a
+// spawned goroutine never runs in parallel with its parent under the controlled scheduler.
+func goGated(fn string) bool {
+	for _, d := range []string{"client/pkg/internal/datatypes/", "client/pkg/internal/managers/", "server/service/", "server/snapshot/"} {
+		if strings.Contains(fn, d) {
+			return true
+		}
+	}
+	return false
+}
+
+// rewriteGoStmts turns `go f(args)` into `{ fn, a0.. := f, args..; go func() { verifrt.GoStart(site); fn(a0..) }() }`
+// (function value and arguments are still evaluated by the parent), and inserts the gate as the first
+// statement of `go func() {...}()` literals without arguments.
+func rewriteGoStmts(fset *token.FileSet, f *ast.File, fn, repo string, rep *report) bool {
+	changed := false
+	cnt := 0
+	astutil.Apply(f, func(c *astutil.Cursor) bool {
+		gs, ok := c.Node().(*ast.GoStmt)
+		if !ok {
+			return true
+		}
+		if _, labeled := c.Parent().(*ast.LabeledStmt); labeled {
+			return true
+		}
+		site := fmt.Sprintf("%s:%d", rel(repo, fn), fset.Position(gs.Pos()).Line)
+		gate := &ast.ExprStmt{X: &ast.CallExpr{
+			Fun:  &ast.SelectorExpr{X: ast.NewIdent("verifrt"), Sel: ast.NewIdent("GoStart")},
+			Args: []ast.Expr{&ast.BasicLit{Kind: token.STRING, Value: fmt.Sprintf("%q", site)}},
+		}}
+		if lit, ok := gs.Call.Fun.(*ast.FuncLit); ok && len(gs.Call.Args) == 0 {
+			lit.Body.List = append([]ast.Stmt{gate}, lit.Body.List...)
+			rep.GoSites = append(rep.GoSites, site)
+			changed = true
+			return true
+		}
+		cnt++
+		fnId := ast.NewIdent(fmt.Sprintf("verifGoF%d", cnt))
+		lhs := []ast.Expr{fnId}
+		rhs := []ast.Expr{gs.Call.Fun}
+		var callArgs []ast.Expr
+		for i, a := range gs.Call.Args {
+			id := ast.NewIdent(fmt.Sprintf("verifGoA%d_%d", cnt, i))
+			lhs = append(lhs, id)
+			rhs = append(rhs, a)
+			callArgs = append(callArgs, id)
+		}
+		if gs.Call.Ellipsis.IsValid() {
+			return true // variadic spread: leave alone
+		}
+		assign := &ast.AssignStmt{Lhs: lhs, Tok: token.DEFINE, Rhs: rhs}
+		inner := &ast.FuncLit{
+			Type: &ast.FuncType{Params: &ast.FieldList{}},
+			Body: &ast.BlockStmt{List: []ast.Stmt{gate, &ast.ExprStmt{X: &ast.CallExpr{Fun: fnId, Args: callArgs}}}},
+		}
+		c.Replace(&ast.BlockStmt{List: []ast.Stmt{assign, &ast.GoStmt{Call: &ast.CallExpr{Fun: inner}}}})
+		rep.GoSites = append(rep.GoSites, site)
+		changed = true
+		return false
+	}, nil)
+	return changed
 }
